@@ -11,9 +11,10 @@ import sys, os, subprocess, json, shutil, tempfile, argparse, glob
 ap = argparse.ArgumentParser()
 ap.add_argument('src'); ap.add_argument('--tier', default='quick'); ap.add_argument('--keep', action='store_true')
 ap.add_argument('--prop', default=None)
+ap.add_argument('--as', dest='as_id', default=None, help='store under this id')
 a = ap.parse_args()
 src = a.src.rstrip('/')
-sid = os.path.basename(src)
+sid = a.as_id or os.path.basename(src)
 prop = a.prop or sid.split('-')[0]
 env = dict(os.environ, GOFLAGS='-mod=mod', GOPROXY='off', GOSUMDB='off', GOTOOLCHAIN='local')
 base = tempfile.mkdtemp(prefix='seed-%s-' % sid, dir='/tmp')
